@@ -203,8 +203,8 @@ MANIFEST_TEXT = {
     },
     "C07": {
         "technique": "Lean 4 theorems (idempotence of merge; of the chunk-level file transformer; iteration) + differential correspondence over repeated runs",
-        "text": "Theorems: C07_merge_idem (merge (merge old inj) inj = merge old inj for every old and every comment with distinct keys), C07_file_idem and C07_iterate (n+1 runs = 1 run for every n, for files whose rewritten literals re-read to the merged items — a decidable per-literal condition the driver evaluates), C07_no_annotation_identity. Tie: every generated file is processed 1-3 times, mixing library, -f, -d, -p; run n+1 must equal run n byte for byte and equal the model.",
-        "note": "Trusted as C06. That newTagItems (format items) = items for all well-formed items is checked per case, not yet proved in general (the scanner round trip).",
+        "text": "Theorems: C07_merge_idem (merge (merge old inj) inj = merge old inj for every old and every comment with distinct keys); C07_rereads — the tag scanner reads every literal the injector writes back as exactly the merged items (newTagItems ∘ format = id on conventional items, and the scanner only produces conventional items: proved for all byte strings); hence C07_file_idempotent and C07_any_number_of_runs: for EVERY file whose comments do not repeat a key, n+1 runs = 1 run for every n; C07_no_annotation_identity. Tie: every generated file is processed 1-3 times, mixing library, -f, -d, -p; run n+1 must equal run n byte for byte and equal the model.",
+        "note": "Trusted as C06 (go/parser positions of the rewritten file are re-derived by the harness on every run).",
     },
     "C19": {
         "technique": "Lean 4 theorems (untouched files, no-area shapes, panic freedom of the splice under well-formed areas, per-file independence) + differential correspondence with the built CLI on mixed directories",
